@@ -754,7 +754,7 @@ def draw_options(draw, n, npt, prof, has_two_sided, force_opt=None):
             up["regression.num_extra_steps"] = draw(st.sampled_from([1, 1, 2, npt, npt + 2]))     # the solver caps it at npt-1
             up["regression.momentum_extra_steps"] = draw(st.booleans())
             if mode != "none" and draw(st.booleans()):
-                up["regression.increase_num_extra_steps_with_restart"] = 1
+                up["regression.increase_num_extra_steps_with_restart"] = draw(st.sampled_from([1, 1, 2]))
             tags.append("regression-steps")
         elif o == 3:
             up["slow.max_slow_iters"] = draw(st.sampled_from([1, 3]))
